@@ -24,7 +24,7 @@ RULE = (
     " 64-byte proof, proof of a wrong-code accessory, proof absent; M6 with single-bit flips of EncryptedData (every byte,"
     " stride through bits; exhaustive in thorough), encrypted under another key / nonce label, signed by another key or"
     " over another id/key/permuted transcript, each inner field removed, plaintext truncated at each TLV boundary, outer"
-    " stream truncated. Distinct by (exchange parameters, mutation); non-trivial = all."
+    " stream truncated; identifier presented in another letter case than the signed one; EVERY step answered with an error code (0x00..0x08, 0x80, 0xFF, empty) next to otherwise valid fields, with and without State, or alone. Accessory identifiers include lower/mixed-case and non-ASCII ones. Distinct by (exchange parameters, mutation); non-trivial = all."
 )
 ASSUMPTIONS = [
     "conformant accessory as in C02 (padding convention) and HAP spec 5.6 labels",
@@ -38,7 +38,18 @@ REQUIRED_COUNTERS = ["honest_accepted", "accessory_accepted_m3", "accessory_acce
 
 def make_acc(rng, code=None, pairing_id=None):
     code = code or f"{rng.randrange(1000):03d}-{rng.randrange(100):02d}-{rng.randrange(1000):03d}"
-    pid = pairing_id or ":".join(f"{rng.randrange(256):02X}" for _ in range(6)).encode()
+    r = rng.random()
+    if pairing_id:
+        pid = pairing_id
+    elif r < 0.5:
+        pid = ":".join(f"{rng.randrange(256):02X}" for _ in range(6)).encode()
+    elif r < 0.75:
+        # identifiers are opaque bytes to the protocol: lower / mixed case hex, free-form ASCII
+        pid = ":".join(rng.choice(["%02x", "%02X"]) % rng.randrange(256) for _ in range(6)).encode()
+    elif r < 0.9:
+        pid = "".join(rng.choice("abcdefXYZ0189-_: ") for _ in range(rng.choice([1, 5, 17, 36]))).encode()
+    else:
+        pid = "".join(rng.choice("äßéλ7a:Z") for _ in range(rng.choice([1, 6, 17]))).encode()
     salt = rng.choice([rng.randbytes(16), bytes(16), bytes(3) + rng.randbytes(13)]) if rng.random() < 0.2 else rng.randbytes(16)
     acc = refps.SetupAccessory(code, pid, rng.randbytes(32), salt, rng.getrandbits(256) | 1)
     return code, acc
@@ -224,6 +235,26 @@ def mutation(name, arg, rng):
             return acc.m6(acc.m6_subtlv(signature=sig))
         if kind == "id_swapped_after_signing":
             return acc.m6(acc.m6_subtlv(pairing_id=b"11:22:33:44:55:66", signature=acc.ltsk.sign(acc.accessory_x() + acc.pairing_id + acc.ltpk)))
+        if kind == "id_case_variant":
+            # presented identifier differs from the signed one only in letter case (arg 0: swapcase, 1: upper, 2: lower, 3: one 0x20 bit)
+            real = acc.pairing_id if any(65 <= (c & 0xDF) <= 90 for c in acc.pairing_id) else b"aB:" + acc.pairing_id
+            sig = acc.ltsk.sign(acc.accessory_x() + real + acc.ltpk)
+            variants = [real.swapcase(), real.upper(), real.lower()]
+            pos = [i for i, c in enumerate(real) if 65 <= (c & 0xDF) <= 90]
+            variants.append(real[: pos[0]] + bytes([real[pos[0]] ^ 0x20]) + real[pos[0] + 1 :])
+            shown = variants[arg % 4]
+            if shown == real:
+                shown = real.swapcase()
+            return acc.m6(acc.m6_subtlv(pairing_id=shown, signature=sig))
+        if kind == "error_with_fields":
+            # the accessory reports an error for this step (it did NOT accept) but the reply also carries the regular fields
+            return list(items) + [(7, bytes([arg]) if arg >= 0 else b"")]
+        if kind == "error_with_fields_first":
+            return [items[0], (7, bytes([arg]) if arg >= 0 else b"")] + list(items[1:])
+        if kind == "error_with_fields_no_state":
+            return _drop(items, 6) + [(7, bytes([arg]) if arg >= 0 else b"")]
+        if kind == "error_only":
+            return [items[0], (7, bytes([arg]) if arg >= 0 else b"")]
         if kind == "sig_permuted":
             sig = acc.ltsk.sign(acc.pairing_id + acc.accessory_x() + acc.ltpk)
             return acc.m6(acc.m6_subtlv(signature=sig))
@@ -275,7 +306,12 @@ def adversarial_plan(ctx):
         + [("M6:outer_truncated", i) for i in (0, 1, 15, 16, 17, 60)]
         + [("M4:outer_truncated", i) for i in (0, 1, 30)]
         + [("M2:outer_truncated", i) for i in (0, 1, 17, 18, 200)]
+        + [("M6:id_case_variant", i) for i in range(4)]
     )
+    err_codes = (0, 1, 2, 3, 4, 5, 6, 7, 8, 0x80, 255, -1)
+    errors = [(f"{st}:{kind}", c) for st in ("M2", "M4", "M6") for kind in ("error_with_fields", "error_with_fields_first", "error_with_fields_no_state", "error_only") for c in err_codes]
+    for k in range(ctx.pick(1, 6)):
+        plan += [(n, a, k) for n, a in errors]
     for k in range(ctx.pick(10, 60)):
         plan += [(n, a, k) for n, a in structural]
         plan += [("M2:flip_salt", 3 * k + 1, k), ("M2:flip_B", 977 * k + 5, k), ("M2:flip_B", 0, k), ("M6:sig_flipped", 37 * k, k)]
